@@ -2,7 +2,7 @@
 from ..algocheck import run_algo_check, replay  # noqa: F401
 
 SHAPES = ["single", "unary1", "pair", "pair3", "pairrev", "parallel", "unarypair", "isolated", "isounary", "path3", "path3d3",
-          "fork3", "triangle", "tern", "ternpair", "twocomp", "path4", "star4", "cycle4", "tritail"]
+          "fork3", "triangle", "tern", "ternpair", "twocomp", "path4", "star4", "cycle4", "tritail", "tritails", "kite"]
 LARGE = ["path5", "tree5", "tern5"]
 CLAUSES = {"EXC", "quiet_but_not_all_finished", "finished_with_incomplete_assignment", "finished_on_non_optimal_assignment"}
 
@@ -18,7 +18,7 @@ def run(tier):
                               policies=["random", "starts_first", "lag", "random"]))
     v = run_algo_check("C01", tier, "model_checking", plans, CLAUSES,
                        nontrivial=lambda vd, m: vd["allfin"] and len(m["inst"]["cons"]) > 0,
-                       rule="instances: all Gen_Dcop shapes (chains, stars, triangle, cycle, ternary constraints, parallel and unary constraints, "
+                       rule="instances: all Gen_Dcop shapes (chains, stars, triangle, cycle, triangle with tails on every corner, kite, ternary constraints, parallel and unary constraints, "
                             "isolated variables, two components) with TLC-drawn tables over {0,1,3,-2,7}, with and without own-value costs, min "
                             "and max; the optimum is computed by TLC (Dcop!Opt); real DpopAlgo computations on the real pseudo-tree under seeded "
                             "start/delivery orders, by reference and through the JSON wire format; non-trivial = at least one constraint and all finished")
